@@ -357,6 +357,12 @@ fn random_trace(mode: &str, rng: &mut SmallRng, steps: usize) -> Sim {
     // application does nothing, while the transport stays healthy), so that A has to detect it
     let ka = mode == "ka";
     let freeze_at = if ka && rng.random_range(0..4) != 0 { rng.random_range(0..steps.max(1)) } else { usize::MAX };
+    // application personalities: in a quarter of the traces one endpoint's application is slow to accept -- it does not
+    // call accept before the last third of the steps -- so that streams are written to, finished and aborted by the peer
+    // while they still wait in the accept queue; likewise a slow datagram reader
+    let late_accept: Option<usize> = if !ka && mode != "fair" && rng.random_range(0..4) == 0 { Some(rng.random_range(0..2)) } else { None };
+    let late_dg: Option<usize> = if dgrams && rng.random_range(0..4) == 0 { Some(rng.random_range(0..2)) } else { None };
+    let late_from = steps - steps / 3;
     let mut total_writes = 0usize;
     let write_budget = if mode == "fair" { (cfgs[0].rwnd.max(cfgs[1].rwnd) as usize + 2) * 2 } else { usize::MAX };
 
@@ -416,7 +422,9 @@ fn random_trace(mode: &str, rng: &mut SmallRng, steps: usize) -> Sim {
                     let draws: Vec<u32> = (0..nd).map(|_| rng.random_range(0..=3)).collect();
                     cands.push((3, json!({"op": "open_poll", "e": e, "c": c, "draws": draws})));
                 }
-                cands.push((3, json!({"op": "accept", "e": e})));
+                if late_accept != Some(i) || step >= late_from {
+                    cands.push((3, json!({"op": "accept", "e": e})));
+                }
                 if cancels {
                     for c in sim.eps[i].opens.keys() {
                         if rng.random_range(0..8) == 0 {
@@ -433,7 +441,9 @@ fn random_trace(mode: &str, rng: &mut SmallRng, steps: usize) -> Sim {
                     let hostlen = pick(rng, &[0u32, 1, 2, 255, 256, 300]);
                     let datalen = pick(rng, &[0u32, 1, 2, 3, 4, 5, 100, 65535, 70000]);
                     cands.push((if mode == "dgram" { 4 } else { 2 }, json!({"op": "dg_send", "e": e, "id": pick(rng, &[0u32, 1, 7]), "hostlen": hostlen, "port": pick(rng, &[0, 53, 65535]), "datalen": datalen})));
-                    cands.push((if mode == "dgram" { 1 } else { 2 }, json!({"op": "dg_get", "e": e})));
+                    if late_dg != Some(i) || step >= late_from {
+                        cands.push((if mode == "dgram" { 1 } else { 2 }, json!({"op": "dg_get", "e": e})));
+                    }
                 }
                 if binds {
                     if sim.eps[i].binds.len() < 2 {
@@ -472,7 +482,11 @@ fn random_trace(mode: &str, rng: &mut SmallRng, steps: usize) -> Sim {
             }
             for h in sim.eps[i].streams.keys() {
                 if total_writes < write_budget {
-                    let len = if std::env::var("SIM_NOZERO").is_ok() { pick(rng, &[1usize, 1, 2, 3, 5]) } else { pick(rng, &[1usize, 1, 2, 3, 5, 0]) };
+                    let mut len = if std::env::var("SIM_NOZERO").is_ok() { pick(rng, &[1usize, 1, 2, 3, 5]) } else { pick(rng, &[1usize, 1, 2, 3, 5, 0]) };
+                    // now and then one very large write (around and beyond 1 MiB): still one write, one frame, one unit of credit
+                    if rng.random_range(0..40) == 0 {
+                        len = pick(rng, &[1usize << 20, (1 << 20) + 1, (3 << 20) + 5]);
+                    }
                     if rng.random_range(0..4) == 0 {
                         // vectored writes: 1..12 slices, some of them empty, splitting `len` (or a longer payload)
                         let total = if rng.random_range(0..3) == 0 { len + rng.random_range(0..=12usize) } else { len };
@@ -490,7 +504,7 @@ fn random_trace(mode: &str, rng: &mut SmallRng, steps: usize) -> Sim {
                 match rng.random_range(0..4) {
                     0 => cands.push((4, json!({"op": "read", "e": e, "h": h, "max": pick(rng, &[1usize, 2, 8]), "pre": pick(rng, &[1usize, 2, 5])}))),
                     1 => cands.push((4, json!({"op": "read", "e": e, "h": h, "max": pick(rng, &[1usize, 2, 8]), "via": "buf"}))),
-                    _ => cands.push((4, json!({"op": "read", "e": e, "h": h, "max": pick(rng, &[1usize, 2, 8])}))),
+                    _ => cands.push((4, json!({"op": "read", "e": e, "h": h, "max": pick(rng, &[1usize, 2, 8, 8, 1 << 22])}))),
                 }
                 if closes {
                     cands.push((1, json!({"op": "shutdown", "e": e, "h": h})));
